@@ -25,7 +25,10 @@ def CmpTrue (op : Lit → Lit → Option Bool) (x y : Term) : Prop :=
 
 def TermInScope (t : Term) : Prop := ∀ l, t = .lit l → InScope l
 
-theorem rangeOk_spec (v b : Term) (hv : TermInScope v) (hb : TermInScope b) :
+/-- not both language-tagged strings (the pairing whose ordering the property leaves unspecified) -/
+def NotBothLang (x y : Term) : Prop := ∀ lx ly, x = .lit lx → y = .lit ly → ¬ BothLang lx ly
+
+theorem rangeOk_spec (v b : Term) (hv : TermInScope v) (hb : TermInScope b) (hl : NotBothLang v b) :
     (rangeOk (fun c => c > 0) v b = true ↔ CmpTrue sparqlLt b v) ∧
     (rangeOk (fun c => c ≥ 0) v b = true ↔ CmpTrue sparqlLe b v) ∧
     (rangeOk (fun c => c < 0) v b = true ↔ CmpTrue sparqlLt v b) ∧
@@ -41,7 +44,7 @@ theorem rangeOk_spec (v b : Term) (hv : TermInScope v) (hb : TermInScope b) :
     | lit lb =>
       simp only [Term.lit.injEq, exists_and_left, exists_eq_left']
       by_cases hg : isStrVal lb = isStrVal lv
-      · have := cmpFlag_spec lv lb (hv lv rfl) (hb lb rfl)
+      · have := cmpFlag_spec lv lb (hv lv rfl) (hb lb rfl) (hl lv lb rfl rfl)
         simp only [hg, ne_eq, not_true_eq_false, if_false]
         exact ⟨this.2.1, this.2.2.2, this.1, this.2.2.1⟩
       · have := strGuard lb lv hg
@@ -50,8 +53,8 @@ theorem rangeOk_spec (v b : Term) (hv : TermInScope v) (hb : TermInScope b) :
 
 /-- generic statement for the four components; `op`/`swap` select the operator and operand order -/
 theorem range_exact (s : Shape) (k : CKind) (fv : FV) (bounds : List Term) (test : Int → Bool)
-    (P : Term → Term → Prop) (hP : ∀ v b, TermInScope v → TermInScope b → (rangeOk test v b = true ↔ P v b))
-    (hscope : (∀ b ∈ bounds, TermInScope b) ∧ ∀ f vs, (f, vs) ∈ fv → ∀ v ∈ vs, TermInScope v) (r : Result) :
+    (P : Term → Term → Prop) (hP : ∀ v b, TermInScope v → TermInScope b → NotBothLang v b → (rangeOk test v b = true ↔ P v b))
+    (hscope : (∀ b ∈ bounds, TermInScope b) ∧ ∀ f vs, (f, vs) ∈ fv → ∀ v ∈ vs, TermInScope v ∧ ∀ b ∈ bounds, NotBothLang v b) (r : Result) :
     r ∈ evalRange s k fv bounds test ↔
       ∃ b ∈ bounds, ∃ f vs, (f, vs) ∈ fv ∧ ∃ v ∈ vs, ¬ P v b ∧ r = mkResult s k f (some v) := by
   unfold evalRange
@@ -60,42 +63,42 @@ theorem range_exact (s : Shape) (k : CKind) (fv : FV) (bounds : List Term) (test
   · rintro ⟨b, hb, f, vs, hfv, v, hv, hok, rfl⟩
     refine ⟨b, hb, f, vs, hfv, v, hv, ?_, rfl⟩
     intro hp
-    rw [(hP v b (hscope.2 f vs hfv v hv) (hscope.1 b hb)).2 hp] at hok
+    rw [(hP v b (hscope.2 f vs hfv v hv).1 (hscope.1 b hb) ((hscope.2 f vs hfv v hv).2 b hb)).2 hp] at hok
     cases hok
   · rintro ⟨b, hb, f, vs, hfv, v, hv, hno, rfl⟩
     refine ⟨b, hb, f, vs, hfv, v, hv, ?_, rfl⟩
     cases hok : rangeOk test v b with
     | false => rfl
-    | true => exact absurd ((hP v b (hscope.2 f vs hfv v hv) (hscope.1 b hb)).1 hok) hno
+    | true => exact absurd ((hP v b (hscope.2 f vs hfv v hv).1 (hscope.1 b hb) ((hscope.2 f vs hfv v hv).2 b hb)).1 hok) hno
 
 /-- sh:minExclusive: a result for every value node `v` unless `$minExclusive < v` returns true -/
 theorem minExclusive_exact (s : Shape) (fv : FV) (bounds : List Term)
-    (hscope : (∀ b ∈ bounds, TermInScope b) ∧ ∀ f vs, (f, vs) ∈ fv → ∀ v ∈ vs, TermInScope v) (r : Result) :
+    (hscope : (∀ b ∈ bounds, TermInScope b) ∧ ∀ f vs, (f, vs) ∈ fv → ∀ v ∈ vs, TermInScope v ∧ ∀ b ∈ bounds, NotBothLang v b) (r : Result) :
     r ∈ evalRange s .minExclusive fv bounds (fun c => c > 0) ↔
       ∃ b ∈ bounds, ∃ f vs, (f, vs) ∈ fv ∧ ∃ v ∈ vs, ¬ CmpTrue sparqlLt b v ∧ r = mkResult s .minExclusive f (some v) :=
-  range_exact s _ fv bounds _ (fun v b => CmpTrue sparqlLt b v) (fun v b hv hb => (rangeOk_spec v b hv hb).1) hscope r
+  range_exact s _ fv bounds _ (fun v b => CmpTrue sparqlLt b v) (fun v b hv hb hl => (rangeOk_spec v b hv hb hl).1) hscope r
 
 theorem minInclusive_exact (s : Shape) (fv : FV) (bounds : List Term)
-    (hscope : (∀ b ∈ bounds, TermInScope b) ∧ ∀ f vs, (f, vs) ∈ fv → ∀ v ∈ vs, TermInScope v) (r : Result) :
+    (hscope : (∀ b ∈ bounds, TermInScope b) ∧ ∀ f vs, (f, vs) ∈ fv → ∀ v ∈ vs, TermInScope v ∧ ∀ b ∈ bounds, NotBothLang v b) (r : Result) :
     r ∈ evalRange s .minInclusive fv bounds (fun c => c ≥ 0) ↔
       ∃ b ∈ bounds, ∃ f vs, (f, vs) ∈ fv ∧ ∃ v ∈ vs, ¬ CmpTrue sparqlLe b v ∧ r = mkResult s .minInclusive f (some v) :=
-  range_exact s _ fv bounds _ (fun v b => CmpTrue sparqlLe b v) (fun v b hv hb => (rangeOk_spec v b hv hb).2.1) hscope r
+  range_exact s _ fv bounds _ (fun v b => CmpTrue sparqlLe b v) (fun v b hv hb hl => (rangeOk_spec v b hv hb hl).2.1) hscope r
 
 theorem maxExclusive_exact (s : Shape) (fv : FV) (bounds : List Term)
-    (hscope : (∀ b ∈ bounds, TermInScope b) ∧ ∀ f vs, (f, vs) ∈ fv → ∀ v ∈ vs, TermInScope v) (r : Result) :
+    (hscope : (∀ b ∈ bounds, TermInScope b) ∧ ∀ f vs, (f, vs) ∈ fv → ∀ v ∈ vs, TermInScope v ∧ ∀ b ∈ bounds, NotBothLang v b) (r : Result) :
     r ∈ evalRange s .maxExclusive fv bounds (fun c => c < 0) ↔
       ∃ b ∈ bounds, ∃ f vs, (f, vs) ∈ fv ∧ ∃ v ∈ vs, ¬ CmpTrue sparqlLt v b ∧ r = mkResult s .maxExclusive f (some v) :=
-  range_exact s _ fv bounds _ (fun v b => CmpTrue sparqlLt v b) (fun v b hv hb => (rangeOk_spec v b hv hb).2.2.1) hscope r
+  range_exact s _ fv bounds _ (fun v b => CmpTrue sparqlLt v b) (fun v b hv hb hl => (rangeOk_spec v b hv hb hl).2.2.1) hscope r
 
 theorem maxInclusive_exact (s : Shape) (fv : FV) (bounds : List Term)
-    (hscope : (∀ b ∈ bounds, TermInScope b) ∧ ∀ f vs, (f, vs) ∈ fv → ∀ v ∈ vs, TermInScope v) (r : Result) :
+    (hscope : (∀ b ∈ bounds, TermInScope b) ∧ ∀ f vs, (f, vs) ∈ fv → ∀ v ∈ vs, TermInScope v ∧ ∀ b ∈ bounds, NotBothLang v b) (r : Result) :
     r ∈ evalRange s .maxInclusive fv bounds (fun c => c ≤ 0) ↔
       ∃ b ∈ bounds, ∃ f vs, (f, vs) ∈ fv ∧ ∃ v ∈ vs, ¬ CmpTrue sparqlLe v b ∧ r = mkResult s .maxInclusive f (some v) :=
-  range_exact s _ fv bounds _ (fun v b => CmpTrue sparqlLe v b) (fun v b hv hb => (rangeOk_spec v b hv hb).2.2.2) hscope r
+  range_exact s _ fv bounds _ (fun v b => CmpTrue sparqlLe v b) (fun v b hv hb hl => (rangeOk_spec v b hv hb hl).2.2.2) hscope r
 
 /-! ### sh:lessThan / sh:lessThanOrEquals (W3C 4.5.3, 4.5.4) -/
 
-theorem pairOk_spec (v c : Term) (hv : TermInScope v) (hc : TermInScope c) :
+theorem pairOk_spec (v c : Term) (hv : TermInScope v) (hc : TermInScope c) (hl : NotBothLang v c) :
     (pairOk (fun r => r < 0) v c = true ↔ CmpTrue sparqlLt v c) ∧
     (pairOk (fun r => r ≤ 0) v c = true ↔ CmpTrue sparqlLe v c) := by
   unfold pairOk CmpTrue
@@ -108,7 +111,7 @@ theorem pairOk_spec (v c : Term) (hv : TermInScope v) (hc : TermInScope c) :
     | bnode x => simp
     | lit lc =>
       simp only [Term.lit.injEq, exists_and_left, exists_eq_left']
-      have := cmpFlag_spec lv lc (hv lv rfl) (hc lc rfl)
+      have := cmpFlag_spec lv lc (hv lv rfl) (hc lc rfl) (hl lv lc rfl rfl)
       exact ⟨this.1, this.2.2.1⟩
 
 /-- a result for every pair (value node `v`, value `c` of the compared property at the focus node) for
@@ -116,8 +119,8 @@ theorem pairOk_spec (v c : Term) (hv : TermInScope v) (hc : TermInScope c) :
     nodes, different categories) -/
 theorem lessThan_exact (s : Shape) (k : CKind) (dg : Graph) (fv : FV) (props : List Term) (test : Int → Bool)
     (P : Term → Term → Prop)
-    (hP : ∀ v c, TermInScope v → TermInScope c → (pairOk test v c = true ↔ P v c))
-    (hscope : (∀ t ∈ dg, TermInScope t.o) ∧ ∀ f vs, (f, vs) ∈ fv → ∀ v ∈ vs, TermInScope v)
+    (hP : ∀ v c, TermInScope v → TermInScope c → NotBothLang v c → (pairOk test v c = true ↔ P v c))
+    (hscope : (∀ t ∈ dg, TermInScope t.o) ∧ ∀ f vs, (f, vs) ∈ fv → ∀ v ∈ vs, TermInScope v ∧ ∀ t ∈ dg, NotBothLang v t.o)
     (rs : List Result) (h : evalLessThan s k dg fv props test = .ok rs) (r : Result) :
     r ∈ rs ↔ ∃ p ∈ props, ∃ f vs, (f, vs) ∈ fv ∧ ∃ v ∈ vs, ∃ c, (⟨f, p, c⟩ : Triple) ∈ dg ∧ ¬ P v c ∧
       r = mkResult s k f (some v) := by
@@ -133,10 +136,10 @@ theorem lessThan_exact (s : Shape) (k : CKind) (dg : Graph) (fv : FV) (props : L
       · rename_i hno
         refine ⟨p, hp, f, vs, hfv, v, hv, c, hc, ?_, by simpa using hr.symm⟩
         intro hp'
-        exact hno ((hP v c (hscope.2 f vs hfv v hv) (hscope.1 _ hc)).2 hp')
+        exact hno ((hP v c (hscope.2 f vs hfv v hv).1 (hscope.1 _ hc) ((hscope.2 f vs hfv v hv).2 _ hc)).2 hp')
     · rintro ⟨p, hp, f, vs, hfv, v, hv, c, hc, hno, rfl⟩
       refine ⟨p, hp, f, vs, hfv, v, hv, c, hc, ?_⟩
-      have : ¬ pairOk test v c = true := fun hok => hno ((hP v c (hscope.2 f vs hfv v hv) (hscope.1 _ hc)).1 hok)
+      have : ¬ pairOk test v c = true := fun hok => hno ((hP v c (hscope.2 f vs hfv v hv).1 (hscope.1 _ hc) ((hscope.2 f vs hfv v hv).2 _ hc)).1 hok)
       simp [this]
 
 /-! ### string-based components (W3C 4.4) -/
